@@ -250,7 +250,10 @@ def judge(c, rec):
                 cls = cls + ["other_tz+ghi"]
             rep = zoo.build_reporting(dict(b, tz=other), c["rep"], frame=fr)
         else:
-            ofam = {"daily": "hourly", "billing": "daily", "hourly": "daily"}[fam]
+            # a data object of another family (each of the other two, reporting class): daily <- billing / hourly, billing <- daily / hourly ...
+            options = [f for f in ("daily", "billing", "hourly") if f != fam]
+            ofam = options[c.get("other_tz_i", 0) % 2]
+            cls = cls + ["foreign=%s<-%s" % (fam, ofam)]
             ob = dict(b, family=ofam, ghi=False)
             r2 = dict(c["rep"], n=max(c["rep"]["n"], 40) if ofam != "hourly" else min(c["rep"]["n"], 30))
             rep = zoo.build_reporting(ob, r2)
